@@ -176,6 +176,13 @@ func init() {
 				table = append(table, q)
 			}
 		}
+		for i, sh := range optimiserBait {
+			if strings.Contains(sh.name, "shadowing") {
+				q := mkShapeProgram("O"+itoa(100+i), sh)
+				q.tag("shadow")
+				table = append(table, q)
+			}
+		}
 		rs.exh = append(rs.exh, "scoping table: "+itoa(len(table))+" programs (shadow site x declaration form {:=, var, var typed})")
 		spec := &diffSpec{
 			fixed: table,
